@@ -18,7 +18,7 @@ PID = "C14"
 
 def grammar_cases():
     key = vlib.sha(vlib.spec_hash("Grammar.tla", "MCGrammar.tla"))
-    d = os.path.join(vlib.BUILD, "tlc", "grammar-" + key)
+    d = vlib.cache_dir("grammar", key)
     dump = os.path.join(d, "trees.ndjson")
     meta = os.path.join(d, "meta.json")
     if not os.path.exists(meta):
